@@ -328,6 +328,31 @@ static void sec_geocoords_nan(Ctx& c, uint64_t idx) {
   c.sample(cls, J().str("geo", s[0]).str("dms", s[1]).str("utm", s[2]).str("mgrs", s[3]));
 }
 
+
+// =========================================================================================
+// numeric split / join helpers of DMS (Encode(ang,d,m[,s]), Decode(d,m,s))
+static void sec_split(Ctx& c, uint64_t) {
+  vh::Rng& r = c.rng; std::string vc; double x = gen_value(r, vc);
+  if (!std::isfinite(x) || std::fabs(x) >= 2e9) { x = r.uniform(-1e6, 1e6); vc = "uniform"; }   // int(ang) must be representable
+  std::string cls = "split/" + vc; c.count(cls, vh::hmix(71, x));
+  double d = 0, m = 0, s = 0, d2 = 0, m2 = 0;
+  DMS::Encode(x, d, m, s); DMS::Encode(x, d2, m2);
+  auto det = [&]() { return J().f("x", x).f("d", d).f("m", m).f("s", s).f("d2", d2).f("m2", m2); };
+  bool neg = x < 0;
+  bool ok = d == std::trunc(x) && d2 == d && m == std::trunc(m) && std::fabs(m) < 60 && std::fabs(s) <= 60 && std::fabs(m2) <= 60
+    && (neg ? (m <= 0 && s <= 0 && m2 <= 0) : (m >= 0 && s >= 0 && m2 >= 0));
+  if (!ok) c.viol("oracle:C10/split/components", cls, det());
+  // exact recomposition error of the returned components (they are an exact-arithmetic statement about x)
+  rd::Q X = rd::Q::from_double(x);
+  rd::Q e3 = rd::qabs(rd::Q::from_double(d) + rd::Q::from_double(m) / rd::Q(60) + rd::Q::from_double(s) / rd::Q(3600) - X);
+  rd::Q e2 = rd::qabs(rd::Q::from_double(d2) + rd::Q::from_double(m2) / rd::Q(60) - X);
+  double u = rd::ulp(x), scale = std::max(u, rd::ulp(1.0) * std::min(1.0, std::fabs(x)));
+  c.obs("split recomposition error [max(ulp(x), eps*min(1,|x|))]", std::max(e3.to_double(), e2.to_double()) / scale, det());
+  if (rd::cmp(e3, rd::Q::from_double(4 * scale)) > 0 || rd::cmp(e2, rd::Q::from_double(4 * scale)) > 0) c.viol("oracle:C10/split/recomposition", cls, det());
+  double y = DMS::Decode(d, m, s);
+  if (!(std::fabs(y - x) <= 6 * scale)) c.viol("oracle:C10/split/decode-dms-triple", cls, det().f("joined", y));
+}
+
 // =========================================================================================
 // (b) grammar-based generation with known exact value
 struct GenPiece { std::string text; rd::Q val; int ind = 0; std::string feat; };
@@ -631,6 +656,7 @@ int main(int argc, char** argv) {
   S.push_back({"geocoords_undefined", 4, 4, false, sec_geocoords_nan, 20});
   S.push_back({"encode_random", 60000, 2000000, true, sec_encode_random, 20});
   S.push_back({"strval", 150000, 4000000, true, sec_strval, 20});
+  S.push_back({"split", 50000, 1000000, true, sec_split, 20});
   S.push_back({"geocoords", 4000, 150000, true, sec_geocoords, 20});
   S.push_back({"grammar", 300000, 6000000, true, sec_grammar, 20});
   S.push_back({"mutate", 300000, 8000000, true, sec_mutate, 20});
